@@ -340,13 +340,43 @@ pub fn generate(rng: &mut Rng, p: &Pools, mode: &str) -> Workload {
         let (lossy, dense) = (open_ended(&p.lossy_normal_exprs), open_ended(&p.dense_exprs));
         let e = if !lossy.is_empty() && rng.chance(1, 2) { rng.pick(&lossy).clone() } else if !dense.is_empty() { rng.pick(&dense).clone() } else { "Mo-Fr 09:00-17:00".to_string() };
         let t = p.instants[rng.usize_below(p.instants.len().min(8))];
-        prebuilt.push((e, Ctx::Default));
+        // one hot value in three is a sun-event expression at a place: what is then looked up thousands of times
+        // through the one shared context are the events of that place, day after day
+        let (e, c) = if rng.chance(1, 3) {
+            let co = *rng.pick(&p.sun_coords);
+            (rng.pick(&p.sun_exprs).clone(), Ctx::TzCoords(rng.pick(&p.zones).to_string(), co.0, co.1))
+        } else {
+            (e, Ctx::Default)
+        };
+        prebuilt.push((e, c));
         let i = prebuilt.len() as u32 - 1;
         threads[0].insert(0, Op::SharedIter { i, t, n: rng.range(20_000, 45_000) as u32 });
         for th in threads.iter_mut() {
             for _ in 0..rng.range(1, 3) {
                 let t2 = t + rng.range(0, 400) * 86_400 + rng.range(0, 86_399);
                 th.push(if rng.chance(1, 2) { Op::Shared { i, t: t2 } } else { Op::SharedIter { i, t: t2, n: rng.range(2, 12) as u32 } });
+            }
+        }
+    }
+    // skipped hours: one workload in twenty shares one zone-aware value whose bounds fall into the hour (half hour)
+    // the zone skips in spring, and asks it, from different threads, about the nights of two or three different
+    // years' clock changes
+    if !c10 && rng.chance(1, 20) {
+        // (zone, utc instants of spring-forward changes)
+        let gaps: [(&str, [i64; 3]); 3] = [
+            ("Europe/Paris", [1711846800, 1743296400, 1679792400]),
+            ("America/New_York", [1710054000, 1741503600, 1678604400]),
+            ("Australia/Lord_Howe", [1728142200, 1759591800, 1696087800]),
+        ];
+        let (zone, at) = *rng.pick(&gaps);
+        let e = rng.pick(&["02:15-02:45", "00:00-02:30", "Sa 22:00-26:10, Su 02:50-06:00", "02:00-03:00 off; 00:00-24:00", "01:00-02:20,02:40-05:00"]).to_string();
+        prebuilt.push((e, Ctx::Tz(zone.to_string())));
+        let i = prebuilt.len() as u32 - 1;
+        for (k, th) in threads.iter_mut().enumerate() {
+            for _ in 0..rng.range(1, 3) {
+                let t = at[(k + rng.below(2) as usize) % 3] - rng.range(60, 3 * 3600);
+                let pos = rng.usize_below(th.len().min(2) + 1);
+                th.insert(pos, if rng.chance(2, 3) { Op::Shared { i, t } } else { Op::SharedIter { i, t, n: rng.range(2, 6) as u32 } });
             }
         }
     }
@@ -389,7 +419,7 @@ pub fn generate(rng: &mut Rng, p: &Pools, mode: &str) -> Workload {
     }
     // churn: one workload in four gets churn operations of one kind
     if !c10 && rng.chance(1, 4) {
-        let kind = *rng.pick(&[0u8, 0, 1, 2]);
+        let kind = *rng.pick(&[0u8, 0, 3, 3, 1, 2]);
         let t = *rng.pick(&p.instants);
         // usually on every thread at once (the sweep / eviction of one thread then meets the drops of the others)
         // ... half of the time all with the same seed: the threads then make the same values, one after the other
